@@ -85,7 +85,8 @@ func allQueries() []query {
 	add("user-numeric", "N", flt{"N", ge, "-100"}, flt{"N", gt, "0"}, flt{"N", le, "5"}, flt{"N", lt, "6"})
 	add("user-numeric-as-string", "N", flt{"N", pfx, ""}, flt{"N", ne, "5"}, flt{"N", eq, "5"})
 	// owner
-	add("owner", object.FilterOwnerID, flt{object.FilterOwnerID, pfx, ""}, flt{object.FilterOwnerID, eq, b58(own1[:])}, flt{object.FilterOwnerID, ne, b58(own1[:])})
+	// (COMMON_PREFIX "" is refused for Base58/UUID-typed attributes, "NE <absent value>" is their match-all query)
+	add("owner", object.FilterOwnerID, flt{object.FilterOwnerID, ne, b58(ownAbsent[:])}, flt{object.FilterOwnerID, eq, b58(own1[:])}, flt{object.FilterOwnerID, ne, b58(own1[:])})
 	// payload checksum
 	add("payload-checksum", object.FilterPayloadChecksum, flt{object.FilterPayloadChecksum, pfx, ""}, flt{object.FilterPayloadChecksum, eq, sumHex("p1")}, flt{object.FilterPayloadChecksum, ne, sumHex("p1")})
 	// payload size
@@ -97,11 +98,11 @@ func allQueries() []query {
 	add("type", object.FilterType, flt{object.FilterType, pfx, ""}, flt{object.FilterType, eq, "REGULAR"}, flt{object.FilterType, ne, "REGULAR"})
 	add("version", object.FilterVersion, flt{object.FilterVersion, pfx, ""})
 	// split relations
-	add("split-id", object.FilterSplitID, flt{object.FilterSplitID, pfx, ""}, flt{object.FilterSplitID, eq, split1.String()}, flt{object.FilterSplitID, ne, split1.String()})
-	add("parent", object.FilterParentID, flt{object.FilterParentID, pfx, ""}, flt{object.FilterParentID, eq, b58(parHigh[:])}, flt{object.FilterParentID, ne, b58(parHigh[:])})
-	add("first-part", object.FilterFirstSplitObject, flt{object.FilterFirstSplitObject, pfx, ""}, flt{object.FilterFirstSplitObject, eq, b58(firstHi[:])}, flt{object.FilterFirstSplitObject, ne, b58(firstHi[:])})
+	add("split-id", object.FilterSplitID, flt{object.FilterSplitID, ne, splitAbsent.String()}, flt{object.FilterSplitID, eq, split1.String()}, flt{object.FilterSplitID, ne, split1.String()})
+	add("parent", object.FilterParentID, flt{object.FilterParentID, ne, b58(idAbsent[:])}, flt{object.FilterParentID, eq, b58(parHigh[:])}, flt{object.FilterParentID, ne, b58(parHigh[:])})
+	add("first-part", object.FilterFirstSplitObject, flt{object.FilterFirstSplitObject, ne, b58(idAbsent[:])}, flt{object.FilterFirstSplitObject, eq, b58(firstHi[:])}, flt{object.FilterFirstSplitObject, ne, b58(firstHi[:])})
 	// associated object
-	add("associate", object.AttributeAssociatedObject, flt{object.AttributeAssociatedObject, pfx, ""}, flt{object.AttributeAssociatedObject, eq, b58(idHigh[:])}, flt{object.AttributeAssociatedObject, ne, b58(idHigh[:])})
+	add("associate", object.AttributeAssociatedObject, flt{object.AttributeAssociatedObject, ne, b58(idAbsent[:])}, flt{object.AttributeAssociatedObject, eq, b58(idHigh[:])}, flt{object.AttributeAssociatedObject, ne, b58(idHigh[:])})
 	// flags
 	add("root-flag", object.FilterRoot, flt{object.FilterRoot, 0, ""})
 	add("phy-flag", object.FilterPhysical, flt{object.FilterPhysical, 0, ""})
